@@ -33,6 +33,12 @@ def _arm(fn: ast.AST, marker: str) -> ast.If:
     return best
 
 
+def guard_atoms_(node, stop):
+    from .util import guard_atoms
+
+    return guard_atoms(node, stop=stop)
+
+
 def run(ctx: Ctx) -> int:
     ad = ctx.func("_typehints:adapt_typehints")
     ctx.expect_locals(ad, ["val", "typehint", "val_class", "not_subclass", "subtypehints", "prev_val", "return_type"])
@@ -264,6 +270,35 @@ def run(ctx: Ctx) -> int:
         f"the walk over subclasses is not conditioned on the listing filters {sorted(listing_filters)}" if ok else f"the walk over subclasses is cut off by the listing filter(s) {shared_f}: a public class below a private / abstract / protocol class is never listed, so its bare name no longer resolves although its full path is accepted",
         fn=addf,
     )
+
+    # ---------------- C14.k: whose signature describes a class --------------------------------------------------------
+    # (1) __new__ replaces __init__ as the signature only if the class's __new__ is its OWN (different from that of every
+    #     class behind it in the MRO): `not any(same)`
+    hdn = ctx.func("_parameter_resolvers:has_dunder_new_method")
+    quants = [c for c in calls_in(hdn) if isinstance(c.func, ast.Name) and c.func.id in ("any", "all") and "__new__" in ast.unparse(c)]
+    ctx.need(quants, "has_dunder_new_method: quantified comparison of __new__ over the MRO")
+    for c in quants:
+        neg = isinstance(getattr(c, "_jv_parent", None), ast.UnaryOp) and isinstance(getattr(c, "_jv_parent").op, ast.Not)
+        cmp_ = c.args[0].elt if c.args and isinstance(c.args[0], ast.GeneratorExp) else None
+        same = isinstance(cmp_, ast.Compare) and isinstance(cmp_.ops[0], ast.Is)
+        ok = (c.func.id == "any" and neg and same) or (c.func.id == "all" and not neg and isinstance(cmp_, ast.Compare) and isinstance(cmp_.ops[0], ast.IsNot))
+        ctx.oblige("C14.k", ok, c, "a custom __new__ counts only when no class behind it in the MRO has the same one" if ok else f"`{src(c, 60)}`: a class that merely INHERITS a custom __new__ is described by the parent's __new__ signature instead of its own __init__ - valid init_args are rejected, invalid ones accepted and the constructor fails", fn=hdn)
+    # (2) default instances are turned into class specs before the *args/**kwargs expansion adds inherited parameters
+    gpv = ctx.func("_parameter_resolvers:ParametersVisitor.get_parameters")
+    gg = ctx.cfg(gpv)
+    rep = [c for c in calls_in(gpv) if call_leaf(c) == "replace_param_default_subclass_specs"]
+    exp = [c for c in calls_in(gpv) if call_leaf(c) == "replace_args_and_kwargs"]
+    ctx.need(rep and exp, "ParametersVisitor.get_parameters: replace_param_default_subclass_specs / replace_args_and_kwargs")
+    ok = gg.dominates(gg.cn(rep), gg.cn(exp)) and not gg.can_reach(gg.cn(exp), gg.cn(rep))
+    ctx.oblige("C14.k", ok, rep[0], "default instances are converted for the component's own parameters, before inherited ones are merged in" if ok else "replace_param_default_subclass_specs runs after the **kwargs expansion: an inherited parameter with an instance default trips its assertion, resolution silently falls back to assumptions and offers keywords the subclass fixes in its super().__init__ call", fn=gpv, construct="default specs before kwargs expansion")
+    # (3) the public instantiate_classes accepts a plain dict: converted when the ARGUMENT is a dict
+    pad = ctx.func("_deprecated:parse_as_dict_patch")
+    pic = nested_defs(pad).get("patched_instantiate_classes")
+    ctx.need(pic, "parse_as_dict_patch.patched_instantiate_classes")
+    cp_ = pic.args.args[1].arg
+    conv = [c for c in calls_in(pic) if call_leaf(c) == "_apply_actions"]
+    ok = bool(conv) and all(any(isinstance(t, ast.Call) and call_leaf(t) == "isinstance" and isinstance(t.args[0], ast.Name) and t.args[0].id == cp_ and pol for t, pol in guard_atoms_(c, pic)) for c in conv)
+    ctx.oblige("C14.k", ok, conv[0] if conv else pic, "a dict configuration is converted to a Namespace before classes are instantiated" if ok else "the dict -> Namespace conversion of instantiate_classes no longer depends on the argument being a dict: a configuration given as a plain dict (json.loads(parser.dump(cfg))) comes back untouched - nothing is instantiated, no error", fn=pic)
 
     # ---------------- C14.j: every class argument is visited by the merge-time discard ----------------------------
     # ActionTypeHint.discard_init_args_on_class_path_change walks a key list by index and prunes the entries nested
